@@ -3,13 +3,14 @@
 # of the properties whose functions live in the touched file, expect exit 0, undo the patch.
 if [ -n "$(git -C /repo status --porcelain)" ]; then echo "refusing: /repo has uncommitted changes"; exit 3; fi
 rc=0
-for f in ${HARMLESS_FILES:-/verif/harmless/h*.diff /verif/harmless/g*.diff /verif/harmless/k*.diff}; do
+for f in ${HARMLESS_FILES:-/verif/harmless/h*.diff /verif/harmless/g*.diff /verif/harmless/k*.diff /verif/harmless/q*.diff}; do
   [ -f "$f" ] || continue
   file=$(grep '^+++ b/' $f | head -1 | sed 's/+++ b\///')
   case "$file" in
     *protocol/process.go) props="C01 C03 C06 C07 C10 C16 C17" ;;
     *protocol/common.go) props="C06 C07 C08 C10 C16" ;;
     *protocol/gateway.go) props="C01 C07 C10 C11" ;;
+    *protocol/tunnel.go|*protocol/client.go) props="C01 C06 C07 C08 C10" ;;
     *security/basic.go) props="C03 C10" ;;
     *security/jwt.go) props="C02 C03 C04 C07 C12 C15 C10" ;;
     *web/basic.go|*web/ntlm.go) props="C05 C10" ;;
